@@ -145,6 +145,13 @@ def classify_site(o):
     for pat, cls, why in TABLE:
         if re.search(pat, s):
             return cls, why
+    # a site inside a closure of a listed function is a site of that function (`x.and_then(|d| table[d])` for `table[x?]`)
+    fn2 = re.sub(r'(::\{closure#\d+\})+$', '', o.fn)
+    if fn2 != o.fn:
+        s2 = '%s:%s:%s' % (fn2, o.kind, o.desc)
+        for pat, cls, why in TABLE:
+            if re.search(pat, s2):
+                return cls, why
     return None, None
 
 
